@@ -82,3 +82,18 @@ Proof.
   rewrite Qpower_opp, <- pow2_shift by exact Hk. rewrite <- Ek.
   destruct q as [n dd]. cbn [Qnum Qden]. unfold Qeq, Qmult, Qinv, inject_Z. cbn. lia.
 Qed.
+
+(* the dyadic enclosure of an arbitrary rational encloses it *)
+Lemma d_enclose_correct bits q : (0 <= bits)%Z -> let '(lo, hi) := d_enclose bits q in dq lo <= q /\ q <= dq hi.
+Proof.
+  intro Hb. unfold d_enclose. destruct (d_of_q q) as [d|] eqn:E.
+  - pose proof (d_of_q_correct q d E) as H. rewrite H. split; apply Qle_refl.
+  - unfold dq. cbn [fst snd]. rewrite Qpower_opp, <- pow2_shift by exact Hb.
+    destruct q as [n d]. cbn [Qnum Qden].
+    assert (P : (0 < 2 ^ bits)%Z) by (apply Z.pow_pos_nonneg; lia).
+    pose proof (Z.div_mod (n * 2 ^ bits) (Z.pos d) ltac:(lia)) as DM.
+    pose proof (Z.mod_pos_bound (n * 2 ^ bits) (Z.pos d) ltac:(lia)) as MB.
+    set (f := (n * 2 ^ bits / Z.pos d)%Z) in *. set (r := ((n * 2 ^ bits) mod Z.pos d)%Z) in *.
+    destruct (2 ^ bits)%Z as [|p|p] eqn:E2; try lia.
+    split; unfold Qle, Qmult, Qinv, inject_Z; cbn; nia.
+Qed.
